@@ -166,7 +166,7 @@ fn run_generic<S: Inner + 'static>(ctx: &mut Ctx, prop: &str, w: &World, inner: 
                     challenge: r.challenge.clone().into(),
                     pub_key_cred_params: r.algs.iter().map(|a| PublicKeyCredentialParameters { ty: PublicKeyCredentialType::PublicKey, alg: alg_of(*a) }).collect(),
                     timeout: match r.challenge.last().copied().unwrap_or(0) % 4 { 0 => None, 1 => Some(0), 2 => Some(60000), _ => Some(u32::MAX) }, exclude_credentials: descs(&r.exclude),
-                    authenticator_selection: r.sel.as_ref().map(|s| AuthenticatorSelectionCriteria { authenticator_attachment: None,
+                    authenticator_selection: r.sel.as_ref().map(|s| AuthenticatorSelectionCriteria { authenticator_attachment: match r.challenge.first().copied().unwrap_or(0) % 3 { 0 => None, 1 => Some(webauthn::AuthenticatorAttachment::Platform), _ => Some(webauthn::AuthenticatorAttachment::CrossPlatform) },
                         resident_key: s.rk.map(|k| match k { Rk::Discouraged => ResidentKeyRequirement::Discouraged, Rk::Preferred => ResidentKeyRequirement::Preferred, Rk::Required => ResidentKeyRequirement::Required }),
                         require_resident_key: s.rrk, user_verification: uvr(s.uv) }),
                     hints: match r.challenge.len() % 3 { 0 => None, 1 => Some(vec![]), _ => Some(vec![webauthn::PublicKeyCredentialHints::SecurityKey, webauthn::PublicKeyCredentialHints::Hybrid]) },
